@@ -39,8 +39,9 @@ Not generated (and why)
   - direct addresses 400H..7FFH (AS takes them as SFR addresses of segment IO, the rule is not documented);
     800H and more must be rejected; addresses beyond 64K depend on ASSUME DS and are not generated
   - SFR bits; bit numbers through symbols are fine, whole bit symbols (BIT) are an AS notion
-  - a zero offset in [R+off8] (the shorter [R] exists), offsets -128..127 for the 16-bit form (AS picks the 8-bit
-    form), offsets 32768..65535 (bit-pattern reading)
+  - a zero offset in [R+off8] (the shorter [R] exists), offsets -128..127 for the 16-bit form (the 8-bit form
+    is the one to take); offsets outside -32768..32767 must be rejected (the field is signed)
+  - relative branches out of reach must be rejected (AS's BRANCHEXT option, which would replace them, is off)
   - the same register as pointer with post-increment and as data register, XCH / NORM with equal registers
     (undefined result, AS warns)
   - XCH with the memory operand first (symmetric operation, Philips lists Rd first)
@@ -468,6 +469,11 @@ class Dependent(Enum):
 
     def allowed(self, v, first):
         raise NotImplementedError
+
+    def boundary_ok(self):
+        # rotated by one: the fixed cases pair the k-th values of all operands
+        n = len(self.names)
+        return list(range(1, n)) + [0]
 
     def classify(self, v, pc=0, vals=None):
         if not 0 <= v < len(self.names):
